@@ -203,16 +203,21 @@ EXPORT errno_t _wcsrtombs_s_chk(size_t *restrict retvalp, char *restrict dest,
 
     /* never let libc store more than dmax bytes */
     if (dest && len > dmax) {
-        /* a result of dmax bytes or more cannot be terminated inside dest */
-        const wchar_t *s2 = *srcp;
-        mbstate_t ps2;
-        size_t need;
-        memcpy(&ps2, ps, sizeof(ps2));
-        need = wcsrtombs(NULL, &s2, 0, &ps2);
-        len = dmax;
-        l = *retvalp = wcsrtombs(dest, srcp, len, ps);
-        if (l != (size_t)-1 && need != (size_t)-1 && need >= dmax) {
-            l = *retvalp = dmax;
+        /* Convert at most dmax bytes.  If that stops in front of a character
+           which the caller's len would still have admitted, the result does
+           not fit into dest. */
+        l = *retvalp = wcsrtombs(dest, srcp, dmax, ps);
+        if (l != (size_t)-1 && l < dmax && *srcp != NULL) {
+            char tmp[MB_LEN_MAX];
+            mbstate_t ps2;
+            size_t next;
+            memcpy(&ps2, ps, sizeof(ps2));
+            next = wcrtomb(tmp, **srcp, &ps2);
+            if (next == (size_t)-1) {
+                l = *retvalp = (size_t)-1;
+            } else if (l + next <= len) {
+                l = *retvalp = dmax;
+            }
         }
     } else {
         l = *retvalp = wcsrtombs(dest, srcp, len, ps);
